@@ -28,17 +28,17 @@ impl StateMachine<'_> {
     //@ fn src/handlers/hunk.rs StateMachine::test_hunk_line
     //@| ensures r == (self.state is HunkHeader || self.state is HunkZero || self.state is HunkMinus || self.state is HunkPlus),
     //@ fn src/handlers/hunk.rs StateMachine::handle_hunk_line spec=hunk.handle_hunk_line
-    //@before <<<if let State::HunkHeader(_, parsed_hunk_header, line, raw_line) = &self.state.clone()>>>| assert(/* @C01,C11:hhl.order.step */ all_lines(&self.painter) =~= all_lines(&old(self).painter));
-    //@before <<<self.state = match new_line_state(>>>| assert(/* @C01,C11:hhl.order.step */ all_lines(&self.painter) =~= all_lines(&old(self).painter)); let ghost mid = all_lines(&self.painter);
-    //@before <<<let n_parents = diff_type.n_parents(); let line = prepare(&self.line, n_parents, self.config); let state = HunkMinus(diff_type, raw_line);>>>| assert(/* @C01,C11:hhl.order.step */ all_lines(&self.painter) =~= mid); assert(self.painter.plus_lines@.len() == 0);
-    //@after <<<self.painter.minus_lines.push((line, state.clone()));>>>| assert(/* @C01,C11:hhl.order.step */ all_lines(&self.painter) =~= mid.push(self.painter.minus_lines@.last().0@));
-    //@after <<<self.painter.plus_lines.push((line, state.clone()));>>>| assert(/* @C01,C11:hhl.order.step */ all_lines(&self.painter) =~= mid.push(self.painter.plus_lines@.last().0@));
-    //@before <<<let n_parents = if is_word_diff()>>>| assert(/* @C01,C11:hhl.order.step */ all_lines(&self.painter) =~= mid); assert(pending(&self.painter) =~= Seq::<Seq<char>>::empty());
-    //@before <<<self.painter .output_buffer .push_str(>>>| assert(/* @C01,C11:hhl.order.step */ all_lines(&self.painter) =~= mid); assert(pending(&self.painter) =~= Seq::<Seq<char>>::empty()); let ghost buf0 = self.painter.output_buffer@;
+    //@before <<<if let State::HunkHeader(_, parsed_hunk_header, line, raw_line) = &self.state.clone()>>>| assert(/* @C01,C02,C11:hhl.order.step */ all_lines(&self.painter) =~= all_lines(&old(self).painter));
+    //@before <<<self.state = match new_line_state(>>>| assert(/* @C01,C02,C11:hhl.order.step */ all_lines(&self.painter) =~= all_lines(&old(self).painter)); let ghost mid = all_lines(&self.painter);
+    //@before <<<let n_parents = diff_type.n_parents(); let line = prepare(&self.line, n_parents, self.config); let state = HunkMinus(diff_type, raw_line);>>>| assert(/* @C01,C02,C11:hhl.order.step */ all_lines(&self.painter) =~= mid); assert(self.painter.plus_lines@.len() == 0);
+    //@after <<<self.painter.minus_lines.push((line, state.clone()));>>>| assert(/* @C01,C02,C11:hhl.order.step */ all_lines(&self.painter) =~= mid.push(self.painter.minus_lines@.last().0@));
+    //@after <<<self.painter.plus_lines.push((line, state.clone()));>>>| assert(/* @C01,C02,C11:hhl.order.step */ all_lines(&self.painter) =~= mid.push(self.painter.plus_lines@.last().0@));
+    //@before <<<let n_parents = if is_word_diff()>>>| assert(/* @C01,C02,C11:hhl.order.step */ all_lines(&self.painter) =~= mid); assert(pending(&self.painter) =~= Seq::<Seq<char>>::empty());
+    //@before <<<self.painter .output_buffer .push_str(>>>| assert(/* @C01,C02,C11:hhl.order.step */ all_lines(&self.painter) =~= mid); assert(pending(&self.painter) =~= Seq::<Seq<char>>::empty()); let ghost buf0 = self.painter.output_buffer@;
     //@before <<<self.painter.output_buffer.push('\n');>>>| assert(self.painter.output_buffer@ == buf0 + expand_spec(self.raw_line@, &self.config.tab_cfg));
-    //@after <<<self.painter.paint_zero_line(&line, state.clone());>>>| assert(/* @C01,C11:hhl.order.step */ all_lines(&self.painter) =~= mid.push(line@));
-    //@after <<<self.painter.output_buffer.push('\n');>>>| assert(/* @C01,C11:hhl.order.step */ all_lines(&self.painter) =~= mid.push(vis(expand_spec(self.raw_line@, &self.config.tab_cfg))));
-    //@before <<<self.painter.emit()?; Ok(true)>>>| assert(/* @C01,C11:hhl.order.step */ all_lines(&self.painter).drop_last() =~= all_lines(&old(self).painter));
+    //@after <<<self.painter.paint_zero_line(&line, state.clone());>>>| assert(/* @C01,C02,C11:hhl.order.step */ all_lines(&self.painter) =~= mid.push(line@));
+    //@after <<<self.painter.output_buffer.push('\n');>>>| assert(/* @C01,C02,C11:hhl.order.step */ all_lines(&self.painter) =~= mid.push(vis(expand_spec(self.raw_line@, &self.config.tab_cfg))));
+    //@before <<<Ok(true)>>>| assert(/* @C01,C02,C11:hhl.order.step */ all_lines(&self.painter).drop_last() =~= all_lines(&old(self).painter));
 }
 
 } // verus!
